@@ -47,11 +47,13 @@ func modelStream(r *Rng, st *Stats, cf *CoqFile, n int) {
 		}
 		out, why := parseLast(string(res.Code))
 		if out == nil {
+			// the output uses a shape the model never produces: recorded as a
+			// correspondence mismatch (observed tree = a marker no lowering yields)
 			st.Histogram["model-output-undumpable:"+why]++
 			if len(st.Extra) < 6 {
 				st.Extra["undumpable:"+why] = js + " => " + string(res.Code)
 			}
-			return
+			out = &Ex{K: kStr, N: -1}
 		}
 		st.Note(kind, f.String()+js, usesLowered(src))
 		items = append(items, fmt.Sprintf("(%s, %s, %s)", f.coq(), src.Coq(), out.Coq()))
